@@ -414,7 +414,7 @@ pub struct SupArgs {
 }
 
 /// Supervisor: returns the process exit code.
-pub fn supervise(pi: PropInfo, args: SupArgs, replay_files: Vec<PathBuf>, simplify: &dyn Fn(&serde_json::Value) -> Vec<serde_json::Value>) -> i32 {
+pub fn supervise(pi: PropInfo, args: SupArgs, replay_files: Vec<PathBuf>, simplify: &dyn Fn(&serde_json::Value) -> Vec<serde_json::Value>) -> (i32, serde_json::Value) {
     use std::process::{Command, Stdio};
     let t0 = Instant::now();
     let id = pi.id;
@@ -453,7 +453,7 @@ pub fn supervise(pi: PropInfo, args: SupArgs, replay_files: Vec<PathBuf>, simpli
                 }
                 ChildOutcome::Other(c) => {
                     eprintln!("replay {} exited with code {c} (infrastructure)", f.display());
-                    return 2;
+                    return (2, serde_json::Value::Null);
                 }
             }
         }
@@ -471,7 +471,7 @@ pub fn supervise(pi: PropInfo, args: SupArgs, replay_files: Vec<PathBuf>, simpli
         let bin = sibling_binary(profile);
         if !bin.exists() {
             eprintln!("missing binary {} (build profile {profile} first)", bin.display());
-            return 2;
+            return (2, serde_json::Value::Null);
         }
         let child = Command::new(bin)
             .args(["worker", id, args.tier.name(), &args.seed.to_string(), &w.to_string(), &seed_idx.to_string(), &per.to_string(), outdir.to_str().unwrap(), profile])
@@ -482,7 +482,7 @@ pub fn supervise(pi: PropInfo, args: SupArgs, replay_files: Vec<PathBuf>, simpli
             Ok(c) => children.push((w, profile, c)),
             Err(e) => {
                 eprintln!("cannot spawn worker: {e}");
-                return 2;
+                return (2, serde_json::Value::Null);
             }
         }
     }
@@ -664,10 +664,7 @@ pub fn supervise(pi: PropInfo, args: SupArgs, replay_files: Vec<PathBuf>, simpli
         "wall_s": t0.elapsed().as_secs_f64(),
         "violations": violations.len(),
     });
-    let evdir = Path::new(VERIF).join("evidence");
-    let _ = std::fs::create_dir_all(&evdir);
-    let mut f = std::fs::File::create(evdir.join(format!("{id}.json"))).expect("evidence file");
-    let _ = f.write_all(&serde_json::to_vec_pretty(&ev).unwrap());
+    write_evidence(id, &ev);
     let _ = std::fs::remove_dir_all(crate::enga::scratch_dir());
 
     println!(
@@ -695,15 +692,128 @@ pub fn supervise(pi: PropInfo, args: SupArgs, replay_files: Vec<PathBuf>, simpli
                 let _ = std::fs::remove_file(path);
             }
         }
-        return 1;
+        return (1, ev);
     }
     if infra || hung {
         eprintln!("infrastructure problem (worker hang or non-deterministic death); not a verdict");
-        return 2;
+        return (2, ev);
     }
     if evaluations == 0 {
         eprintln!("no cases were evaluated");
-        return 2;
+        return (2, ev);
     }
-    0
+    (0, ev)
+}
+
+pub fn write_evidence(id: &str, ev: &serde_json::Value) {
+    let evdir = Path::new(VERIF).join("evidence");
+    let _ = std::fs::create_dir_all(&evdir);
+    if let Ok(mut f) = std::fs::File::create(evdir.join(format!("{id}.json"))) {
+        let _ = f.write_all(&serde_json::to_vec_pretty(ev).unwrap());
+    }
+}
+
+/// Thorough-tier extra for C04: the Engine A interpreter as a libFuzzer target under AddressSanitizer.
+/// Tooling trouble is recorded in the evidence and never turned into a verdict.
+pub fn fuzz_stage(id: &str, seed: u64, runs_per_job: u64, jobs: u32) -> (i32, serde_json::Value) {
+    use std::process::Command;
+    let t0 = Instant::now();
+    let fuzz_dir = Path::new(VERIF).join("harness").join("fuzz");
+    let scratch = crate::enga::scratch_dir().join("fuzz");
+    let corpus = scratch.join("corpus");
+    let art = scratch.join("art");
+    let _ = std::fs::create_dir_all(&corpus);
+    let _ = std::fs::create_dir_all(&art);
+    let _ = std::fs::copy(Path::new(VERIF).join("harness").join("Cargo.lock"), fuzz_dir.join("Cargo.lock"));
+    let build = Command::new("cargo").args(["+nightly", "fuzz", "build", "hist"]).current_dir(&fuzz_dir).env("CARGO_NET_OFFLINE", "true").output();
+    let ok = matches!(&build, Ok(o) if o.status.success());
+    if !ok {
+        let why = match build {
+            Ok(o) => String::from_utf8_lossy(&o.stderr).lines().rev().take(5).collect::<Vec<_>>().join(" | "),
+            Err(e) => e.to_string(),
+        };
+        eprintln!("fuzz stage unavailable (cargo +nightly fuzz build failed): recorded in evidence, not a verdict");
+        return (0, serde_json::json!({"status": "unavailable", "why": why}));
+    }
+    let seeds = fuzz_dir.join("seeds").join("hist");
+    let mut cmd = Command::new("cargo");
+    cmd.args(["+nightly", "fuzz", "run", "hist"]).arg(&corpus);
+    if seeds.is_dir() {
+        cmd.arg(&seeds);
+    }
+    cmd.arg("--")
+        .arg(format!("-runs={runs_per_job}"))
+        .arg(format!("-seed={seed}"))
+        .args(["-max_len=400", "-len_control=0", "-print_final_stats=1"])
+        .arg(format!("-jobs={jobs}"))
+        .arg(format!("-workers={jobs}"))
+        .arg(format!("-artifact_prefix={}/", art.display()))
+        .current_dir(&scratch)
+        .env("CARGO_NET_OFFLINE", "true");
+    // cargo fuzz must run from the fuzz project's parent; logs (fuzz-N.log) go to the cwd
+    cmd.current_dir(&fuzz_dir);
+    let out = cmd.output();
+    let status_txt = match &out {
+        Ok(o) => format!("exit {:?}", o.status.code()),
+        Err(e) => format!("spawn failed: {e}"),
+    };
+    let mut artifacts: Vec<PathBuf> = std::fs::read_dir(&art).map(|d| d.filter_map(|e| e.ok().map(|e| e.path())).collect()).unwrap_or_default();
+    artifacts.sort();
+    let corpus_files = std::fs::read_dir(&corpus).map(|d| d.count()).unwrap_or(0);
+    for f in std::fs::read_dir(&fuzz_dir).into_iter().flatten().flatten() {
+        let n = f.file_name().to_string_lossy().to_string();
+        if n.starts_with("fuzz-") && n.ends_with(".log") {
+            let _ = std::fs::remove_file(f.path());
+        }
+    }
+    let mut code = 0;
+    let mut foreign = 0u64;
+    let mut reported: Vec<String> = Vec::new();
+    for a in &artifacts {
+        let Ok(bytes) = std::fs::read(a) else { continue };
+        let Some(case) = crate::fuzzdec::decode_case_a(&bytes) else { continue };
+        let path = write_replay(id, &case, &format!("libFuzzer/ASan artifact {}", a.file_name().unwrap().to_string_lossy()), "hold");
+        match replay_in_child("checked", Path::new(&path), 60) {
+            ChildOutcome::Violation(o) => {
+                println!("VIOLATION property={id} replay={path}");
+                println!("  {}", o.lines().nth(1).unwrap_or("").trim());
+                reported.push(path);
+                code = 1;
+            }
+            ChildOutcome::Crashed(how) => {
+                println!("VIOLATION property={id} replay={path}");
+                println!("  sig=crash/{} found by the fuzz stage", how.replace(' ', "-"));
+                reported.push(path);
+                code = 1;
+            }
+            ChildOutcome::Held => {
+                // fails only in the sanitizer build: an access outside the arena's memory (or a debug assertion)
+                let keep = Path::new(VERIF).join("replays").join(id).join(format!("{}.bin", a.file_name().unwrap().to_string_lossy()));
+                let _ = std::fs::copy(a, &keep);
+                println!("VIOLATION property={id} replay={path}");
+                println!("  sig=fuzz/sanitizer-only the case fails under AddressSanitizer but not in the plain build (raw input kept as {})", keep.display());
+                reported.push(path);
+                code = 1;
+            }
+            ChildOutcome::Other(_) => {
+                foreign += 1;
+                let _ = std::fs::remove_file(&path);
+            }
+        }
+    }
+    let ev = serde_json::json!({
+        "status": "ran",
+        "engine": "cargo +nightly fuzz run hist (libFuzzer, AddressSanitizer), target = Engine A interpreter with every oracle armed",
+        "jobs": jobs,
+        "runs_per_job": runs_per_job,
+        "total_runs": runs_per_job * jobs as u64,
+        "final_corpus_files": corpus_files,
+        "artifacts": artifacts.len(),
+        "artifacts_reported": reported,
+        "artifacts_other": foreign,
+        "cargo_fuzz": status_txt,
+        "wall_s": t0.elapsed().as_secs_f64(),
+    });
+    let _ = std::fs::remove_dir_all(&scratch);
+    (code, ev)
 }
